@@ -435,6 +435,9 @@ fn main() {
                 if *skip_empty_last && sl[3] == 0 {
                     return;
                 }
+                if !thorough && s != 0 && (variant % N_CONDS == 3 || (s == 4 && (variant / N_CONDS) % N_CONDS == 3)) {
+                    return; // quick tier: three of the four branch conditions (the independent `RDX == 0` is thorough-only)
+                }
                 let p = build(s, variant, &sl, callee, has_caller);
                 let label = format!("skeleton={s} variant={variant} slots={sl:?} callee={callee} has_caller={has_caller}");
                 ctx.sample(|| json!({"label": label, "program": render(&p)}));
@@ -451,7 +454,7 @@ fn main() {
         "bounds",
         json!({"skeletons": "line, diamond, loop, loop through the source call, diamond + second conditional, early return",
                "layers": layers.iter().map(|(a, n, _)| json!({"slot_alphabet": a.len(), "slots": n})).collect::<Vec<_>>(),
-               "branch_conditions": N_CONDS, "callee": "returning / never returning (only multiplied in when a slot calls FUN_g)", "has_caller": 2,
+               "branch_conditions": if thorough { N_CONDS } else { N_CONDS - 1 }, "callee": "returning / never returning (only multiplied in when a slot calls FUN_g)", "has_caller": 2,
                "configuration": "shipped src/config.json (CWE476 and Memory sections); every 10th program additionally with the other values of the legacy policy parameters",
                "configured_symbols_in_programs": ["malloc", "calloc"]}),
     );
